@@ -1,10 +1,133 @@
 import Model.Common.Proto
-open Btc
+import Model.Common.HashProto
+import Model.Common.ECProto
+import Model.C03.Batch
+import Generated.Schnorr
+open Btc Btc.Schnorr
 
 /-- line protocol of property C03: see harness/c03.py -/
-def handle : List String → String
-  -- one line per generated module this driver serves, e.g.
-  -- | "gen" :: "VarInt" :: fn :: args => (Gen.VarInt.dispatch fn args).getD "bad-op"
-  | _ => "bad-op"
+
+def hashOfToken : String → Option ((Bytes → Bytes) × Nat)
+  | "sha256" => some (sha256, 32)
+  | "sha1" => some (sha1, 20)
+  | "sha512" => some (sha512, 64)
+  | "ripemd160" => some (ripemd160, 20)
+  | _ => none
+
+/-- `tagged_hash(tag, m, hf) = hf(hf(tag) ‖ hf(tag) ‖ m)` -/
+def taggedWith (H : Bytes → Bytes) (tag m : Bytes) : Bytes :=
+  let t := H tag
+  H (t ++ t ++ m)
+
+def paramsOf (c : EC.Curve) (hf : String) : Option Params := do
+  let (H, len) ← hashOfToken hf
+  let nlen := Py.natBitLength c.n.toNat
+  pure { pSize := (Py.natBitLength c.p.toNat + 7) / 8, nSize := (nlen + 7) / 8, nlen := nlen, hfLen := len,
+         TH := if hf == "sha256" then taggedHash else taggedWith H }
+
+def FUEL : Nat := 10000
+
+def rUnit (r : Except Err Unit) : String :=
+  match r with | .ok _ => "ok" | .error e => s!"err {e.name}"
+def rSig (r : Except Err Sig) : String :=
+  match r with | .ok sg => s!"ok {sg.r} {sg.s}" | .error e => s!"err {e.name}"
+def rBool (b : Bool) : String := if b then "ok True" else "ok False"
+
+def parseItem (s : String) : Option Item :=
+  match s.splitOn ":" with
+  | [m, x, r, s] => do pure ⟨← fromHex? m, ← parseInt? x, ⟨← parseInt? r, ← parseInt? s⟩⟩
+  | _ => none
+
+def parseCoefs (s : String) : Option (List Int) :=
+  if s == "-" then some [] else (s.splitOn ",").mapM parseInt?
+
+/-- member `i ≥ 1` takes the `(i-1)`-th listed coefficient -/
+def coefFn (l : List Int) (i : Nat) : Int := l.getD (i - 1) 1
+
+def schnorrOp : List String → Option String
+  | ["ssa.sign", c, hf, msg, q, aux] => do
+    let c ← EC.curveOfToken c; let prm ← paramsOf c hf
+    pure (rSig (signChecked (EC.ops c) prm FUEL (← fromHex? msg) (← parseInt? q) (← fromHex? aux)))
+  | ["ssa.sign0", c, hf, msg, q, aux] => do
+    let c ← EC.curveOfToken c; let prm ← paramsOf c hf
+    pure (rSig (sign (EC.ops c) prm FUEL (← fromHex? msg) (← parseInt? q) (← fromHex? aux)))
+  | ["ssa.verify", c, hf, msg, x, r, s] => do
+    let c ← EC.curveOfToken c; let prm ← paramsOf c hf
+    pure (rUnit (assertAsValid (EC.ops c) prm (← fromHex? msg) (← parseInt? x) ⟨← parseInt? r, ← parseInt? s⟩))
+  | ["ssa.verifyc", c, hf, msg, x, r, s] => do
+    let c ← EC.curveOfToken c; let prm ← paramsOf c hf
+    pure (rBool (verify (EC.ops c) prm (← fromHex? msg) (← parseInt? x) ⟨← parseInt? r, ← parseInt? s⟩))
+  | ["ssa.nonce", c, hf, msg, q, aux] => do
+    let c ← EC.curveOfToken c; let prm ← paramsOf c hf
+    pure (match nonce (EC.ops c) prm FUEL (← fromHex? msg) (← parseInt? q) (← fromHex? aux) with
+          | .ok (k, xK, q', xQ) => s!"ok {k} {xK} {q'} {xQ}" | .error e => s!"err {e.name}")
+  | ["ssa.challenge", c, hf, msg, xQ, xK] => do
+    let c ← EC.curveOfToken c; let prm ← paramsOf c hf
+    pure (match challenge (EC.ops c) prm (← fromHex? msg) (← parseInt? xQ) (← parseInt? xK) with
+          | .ok v => s!"ok {v}" | .error e => s!"err {e.name}")
+  | ["ssa.genkeys", c, q] => do
+    let c ← EC.curveOfToken c
+    pure (match genKeys (EC.ops c) (← parseInt? q) with
+          | .ok (q', x) => s!"ok {q'} {x}" | .error e => s!"err {e.name}")
+  | ["ssa.lift", c, x] => do
+    let c ← EC.curveOfToken c
+    pure (match (EC.ops c).liftX (← parseInt? x) with | some P => s!"ok {P.1} {P.2}" | none => "err value")
+  -- `_sign_(e, q', k', x(kG))` then `_assert_as_valid_(e, lift(x(qG)), r, s)` for explicit (q, k, e)
+  | ["ssa.qke", c, q, k, e] => do
+    let c ← EC.curveOfToken c
+    let o := EC.ops c
+    let q ← parseInt? q; let k ← parseInt? k; let e ← parseInt? e
+    let xQ := o.x (o.mul q o.gen)
+    pure (match signCore o e (evenScalar o q) (evenScalar o k) (o.x (o.mul k o.gen)) with
+          | .error er => s!"err {er.name}"
+          | .ok sg =>
+            match o.liftX xQ with
+            | none => "err lift"
+            | some Q => s!"ok {sg.r} {sg.s} " ++ rUnit (assertCore o e Q sg.r sg.s))
+  -- `_assert_as_valid_(c, (x, y_even(x), 1), r, s)` for explicit challenge
+  | ["ssa.core", c, e, x, r, s] => do
+    let c ← EC.curveOfToken c
+    let o := EC.ops c
+    let e ← parseInt? e; let x ← parseInt? x; let r ← parseInt? r; let s ← parseInt? s
+    pure (match o.liftX x with
+          | none => "err lift"
+          | some Q => rUnit (assertCore o e Q r s))
+  | ["ssa.ser", c, r, s] => do
+    let c ← EC.curveOfToken c; let prm ← paramsOf c "sha256"
+    pure (match serialize (EC.ops c) prm ⟨← parseInt? r, ← parseInt? s⟩ with
+          | .ok b => s!"ok {toHex b}" | .error e => s!"err {e.name}")
+  | ["ssa.parse", hex] => do
+    let prm ← paramsOf EC.secp256k1 "sha256"
+    pure (rSig (parse (EC.ops EC.secp256k1) prm (← fromHex? hex)))
+  | "ssa.batch" :: c :: hf :: coefs :: items => do
+    let c ← EC.curveOfToken c; let prm ← paramsOf c hf
+    let l ← parseCoefs coefs
+    let its ← items.mapM parseItem
+    pure (rUnit (assertBatch (EC.ops c) prm (coefFn l) its))
+  | ["ssa.s2c", c, hf, msg, q, aux, commit] => do
+    let c ← EC.curveOfToken c; let prm ← paramsOf c hf
+    pure (match signCommit (EC.ops c) prm FUEL (← fromHex? msg) (← parseInt? q) (← fromHex? aux) (← fromHex? commit) with
+          | .ok (sg, R) => s!"ok {sg.r} {sg.s} {R.1} {R.2}" | .error e => s!"err {e.name}")
+  -- receipt given as affine coordinates; `bytes_from_point` refuses what is off the curve / infinity
+  | ["ssa.s2cv", c, hf, msg, x, r, s, commit, rx, ry] => do
+    let c ← EC.curveOfToken c; let prm ← paramsOf c hf
+    let R : EC.Point := (← parseInt? rx, ← parseInt? ry)
+    let onc := R.2 ≠ 0 && EC.isOnCurve c.toCurveGroup R == some true
+    let msg ← fromHex? msg; let x ← parseInt? x; let r ← parseInt? r; let s ← parseInt? s
+    let commit ← fromHex? commit
+    pure (if !onc then "ok False" else
+          rBool (verifyCommit (EC.ops c) prm FUEL msg x ⟨r, s⟩ commit R))
+  | _ => none
+
+def handle (toks : List String) : String :=
+  match toks with
+  | "gen" :: "Schnorr" :: fn :: args => (Gen.Schnorr.dispatch fn args).getD "bad-op"
+  | _ =>
+    match hashOp toks with
+    | some r => r
+    | none =>
+      match EC.ecOp toks with
+      | some r => r
+      | none => (schnorrOp toks).getD "bad-op"
 
 def main : IO Unit := runLoop handle
